@@ -65,7 +65,9 @@ CaseIR(shape, leaf, pos) ==
       root == CASE pos = "field"    -> Obj("p", "Root", TStruct(<<Field("f", t, TRUE)>>))
                 [] pos = "optfield" -> Obj("p", "Root", TStruct(<<Field("f", t, FALSE)>>))
                 [] pos = "object"   -> Obj("p", "Root", t)
-  IN <<SchemaOf("p", <<root, SObj, S2Obj, EObj, UObj, A1Obj, A2Obj>>)>>
+      \* a second package holding the SAME type under test (objects generated from it must exist in BOTH packages)
+      mirror == Obj("q", "Mirror", TStruct(<<Field("m", t, TRUE)>>))
+  IN <<SchemaOf("p", <<root, SObj, S2Obj, EObj, UObj, A1Obj, A2Obj>>), SchemaOf("q", <<mirror>>)>>
 
 Cases == {[shape |-> s, leaf |-> l, pos |-> ps] :
             s \in {x \in Shapes(MaxDepth) : TRUE}, l \in DOMAIN Leaves, ps \in Positions}
